@@ -34,6 +34,10 @@ class StepCap(BaseException):
 
 
 def code_kind(code, trace_world):
+    if code.co_name in ("__hash__", "__eq__"):
+        # invoked implicitly by C-level dict / set operations, at moments that depend on hash
+        # values (addresses, hash seed): not part of the simulated execution
+        return None
     fn = code.co_filename
     if fn.startswith("<ovld:"):
         return "gen"
@@ -57,9 +61,14 @@ def short_loc(code, lineno):
     return f"{fn}:{code.co_name}:{lineno}"
 
 
+HOT_FUNCS = ("compile", "ensure_compiled", "_is_built", "f", "first_entry", "resolve", "__missing__",
+             "mro", "register", "_register", "_set", "unregister", "_update", "add_mixins",
+             "_lock_parents", "lock")
+
+
 class Sim:
     def __init__(self, trace_world=False, step_cap=400_000, record_locs=False,
-                 monitor_codes=None):
+                 monitor_codes=None, opcode_funcs=None):
         self.trace_world = trace_world
         self.step_cap = step_cap
         self.kinds = {}  # code -> kind or None
@@ -79,6 +88,7 @@ class Sim:
         self.monitor_codes = monitor_codes or {}
         self.monitor_hits = []
         self.monitor_tagged = False  # record (thread, tag, label) instead of label
+        self.opcode_funcs = opcode_funcs or ()
         self.monitor_tag = {}
         self.last_loc = None
 
@@ -98,10 +108,14 @@ class Sim:
                 self.monitor_hits.append((tid, self.monitor_tag.get(tid), self.monitor_codes[code]))
             else:
                 self.monitor_hits.append(self.monitor_codes[code])
+        if self.opcode_funcs and kind == "lib" and code.co_name in self.opcode_funcs:
+            # bytecode granularity inside the functions that publish shared state: a yield /
+            # crash point between two stores of one source line
+            frame.f_trace_opcodes = True
         return self.local_trace
 
     def local_trace(self, frame, event, arg):
-        if event != "line":
+        if event != "line" and event != "opcode":
             return self.local_trace
         code = frame.f_code
         self.step += 1
@@ -110,7 +124,7 @@ class Sim:
             cid = self.code_ids[code]
         except KeyError:
             cid = self.code_ids[code] = len(self.code_ids) + 1
-        lineno = frame.f_lineno
+        lineno = frame.f_lineno or 0  # (None for some bytecodes under opcode tracing)
         sched = self.sched
         tid = sched.current if sched is not None else 0
         self.digest = (self.digest * 1000003 + cid * 8191 + lineno * 31 + tid) & MASK
@@ -230,7 +244,7 @@ class Scheduler:
         step = self.sim.step
         nxt = None
         if self.pending_pair is not None:
-            self.pairs.append((self.pending_pair, short_loc(frame.f_code, frame.f_lineno)))
+            self.pairs.append((self.pending_pair, short_loc(frame.f_code, frame.f_lineno or 0)))
             self.pending_pair = None
         if self.watch:
             self._watch(cur, frame)
@@ -245,7 +259,7 @@ class Scheduler:
         if nxt is None or nxt == cur or not (0 <= nxt < self.n) or self.state[nxt] != "ready":
             return
         self.switches.append([step, nxt])
-        loc = short_loc(frame.f_code, frame.f_lineno)
+        loc = short_loc(frame.f_code, frame.f_lineno or 0)
         self.switch_locs.append((cur, loc, nxt))
         st = lib_stack(frame)
         self.parked[cur] = st
@@ -508,7 +522,7 @@ class Placed:
     def decide(self, sched, step, cur, frame):
         if not self.places:
             return None
-        loc = short_loc(frame.f_code, frame.f_lineno)
+        loc = short_loc(frame.f_code, frame.f_lineno or 0)
         key = (cur, loc)
         n = self.visits[key] = self.visits.get(key, 0) + 1
         for p in self.places:
